@@ -125,6 +125,14 @@ Definition case_decls (c : ccase) : str :=
         (flat_map (fun d => decls rn (snd d)) (p_defs p) ++ match p_root p with Some rt => decls rn rt | None => [] end)
   | _ => []
   end.
+Definition case_plans (c : ccase) : str :=
+  match model_prog c with
+  | Done p =>
+      flat_map (fun l => l ++ [10]%N)
+        (flat_map (fun d => plans (snd d)) (p_defs p) ++ match p_root p with Some rt => plans rt | None => [] end)
+  | _ => []
+  end.
+Definition all_plans (cs : list (N * ccase)) : list (N * str) := map (fun ic => (fst ic, case_plans (snd ic))) cs.
 Definition all_decls (cs : list (N * ccase)) : list (N * str) := map (fun ic => (fst ic, case_decls (snd ic))) cs.
 
 Definition all_mismatches (cs : list (N * ccase)) : list (N * list (N * N)) :=
